@@ -276,6 +276,26 @@ class StmtMixin:
                 walk(nd)
         return out
 
+    def pointer_sources(self, did, nodes):
+        """right-hand sides of the plain assignments to the variable inside the nodes"""
+        out = []
+
+        def walk(x):
+            if not isinstance(x, dict):
+                return
+            if x.get('kind') == 'BinaryOperator' and x.get('opcode') == '=':
+                l = x['inner'][0]
+                while l.get('kind') == 'ParenExpr':
+                    l = l['inner'][0]
+                if l.get('kind') == 'DeclRefExpr' and l['referencedDecl'].get('id') == did:
+                    out.append(x['inner'][1])
+            for c in x.get('inner', []):
+                walk(c)
+        for nd in nodes:
+            if nd is not None:
+                walk(nd)
+        return out
+
     def declared_locals(self, nodes):
         out = set()
 
@@ -327,9 +347,31 @@ class StmtMixin:
             v = self.st.env[did]
             d = self.tu.decl_by_id[did]
             if isinstance(v, Ptr):
-                if v.region is None or v.region.kind != 'arr':
-                    raise Unsupported('loop modifies pointer %s into %s' % (d['name'], v.region.kind if v.region else 'NULL'))
-                self.st.env[did] = Ptr(v.region, self.fresh_bv(d['name'] + '.off', 64))
+                # at an arbitrary iteration the pointer is what it was before the loop (offset unknown) or points into one of
+                # the regions the body assigns to it: one path per candidate
+                cands = []
+                if v.region is None:
+                    cands.append(None)
+                elif v.region.kind == 'arr':
+                    cands.append(v.region)
+                else:
+                    raise Unsupported('loop modifies pointer %s into %s region' % (d['name'], v.region.kind))
+                for rhs in self.pointer_sources(did, [cond, inc, body]):
+                    try:
+                        w = self.guarded(z3.BoolVal(True), lambda: self.rval(rhs))
+                    except Unsupported:
+                        raise Unsupported('loop assigns %s from an expression that cannot be evaluated at the loop head' % d['name'])
+                    if not isinstance(w, Ptr):
+                        raise Unsupported('loop assigns a non-pointer to %s' % d['name'])
+                    if w.region is None:
+                        if None not in cands:
+                            cands.append(None)
+                    elif w.region.kind != 'arr':
+                        raise Unsupported('loop modifies pointer %s into %s region' % (d['name'], w.region.kind))
+                    elif not any(c is w.region for c in cands):
+                        cands.append(w.region)
+                pick = cands[self.decide(len(cands))] if len(cands) > 1 else cands[0]
+                self.st.env[did] = NULL if pick is None else Ptr(pick, self.fresh_bv(d['name'] + '.off', 64))
             elif isinstance(v, FuncPtr):
                 raise Unsupported('loop modifies function pointer')
             else:
